@@ -121,6 +121,27 @@ def ev(e, env):
         if d in env:
             return env[d]
         raise Unknown(d)
+    if isinstance(e, ast.Call) and isinstance(e.func, ast.Name) and e.func.id in env.get("__funcs__", {}) and not e.keywords:
+        # a module-level helper of pure option logic (`_key_matching(args)`): evaluated with its parameters aliased to the
+        # caller's names
+        fn = env["__funcs__"][e.func.id]
+        if env.get("__depth__", 0) > 4:
+            raise Unknown("helper recursion too deep")
+        params = [a.arg for a in fn.args.args]
+        local = dict(env)
+        local["__depth__"] = env.get("__depth__", 0) + 1
+        for pn, a in zip(params, e.args):
+            src = dotted(a)
+            if src:
+                for k, v in list(env.items()):
+                    if k == src or k.startswith(src + "."):
+                        local[k.replace(src, pn, 1)] = v
+            else:
+                local[pn] = ev(a, env)
+        r = eval_body(fn.body, local)
+        if r is None:
+            raise Unknown(f"helper {e.func.id} falls off")
+        return r[1]
     raise Unknown(ast.unparse(e))
 
 
@@ -246,6 +267,15 @@ def parse_cli(model):
             specs[dest] = ArgSpec(flags, dest, action, kw.get("const"), default_v, kw.get("choices"), grp, n, template)
             if grp in groups:
                 groups[grp].append(dest)
+    # parser.set_defaults(dest=value, ...) overrides the defaults of the options it names
+    for n in walk_no_nested(f.node):
+        if isinstance(n, ast.Call) and isinstance(n.func, ast.Attribute) and n.func.attr == "set_defaults":
+            for k in n.keywords:
+                if k.arg in specs:
+                    try:
+                        specs[k.arg].default = ast.literal_eval(k.value)
+                    except Exception:
+                        specs[k.arg].default = ("expr", k.value)
     return f, specs, groups
 
 
@@ -301,6 +331,7 @@ def eval_build_options(fn, specs, overrides):
     mod = fn
     while getattr(mod, "_parent", None) is not None:
         mod = mod._parent
+    env["__funcs__"] = {s_.name: s_ for s_ in getattr(mod, "body", []) if isinstance(s_, ast.FunctionDef) and s_ is not fn}
     for s_ in getattr(mod, "body", []):
         tg_ = s_.targets[0] if isinstance(s_, ast.Assign) and len(s_.targets) == 1 else (s_.target if isinstance(s_, ast.AnnAssign) and s_.value is not None else None)
         if isinstance(tg_, ast.Name) and tg_.id not in env:
